@@ -12,11 +12,9 @@ case "$patch" in
   *) (cd "$work/repo" && patch -p1 -s < "$patch") ;;
 esac
 cd /verif
-mkdir -p "$work/ev" && cp -a evidence "$work/ev/" 2>/dev/null || true
 set +e
-VERIF_REPO="$work/repo" VERIF_REPLAY_DIR="$work/replays" ./check "$id" --tier "$tier" > "$work/out.txt" 2>&1
+VERIF_REPO="$work/repo" VERIF_REPLAY_DIR="$work/replays" VERIF_EVIDENCE_DIR="$work/evidence" ./check "$id" --tier "$tier" > "$work/out.txt" 2>&1
 rc=$?
 set -e
-rm -rf evidence && cp -a "$work/ev/evidence" evidence
 grep -v "^VIOLATION" "$work/out.txt" | tail -${TAILN:-12}
 echo "exit=$rc violations_lines=$(grep -c '^VIOLATION' "$work/out.txt")"
